@@ -859,5 +859,6 @@ func init() {
 			Corpus: c14Corpus(), N: c.N(9, 330), Gen: c14Gen, Check: c14Check,
 		})
 		c14BurstLeg(c)
+		c14SchedLeg(c)
 	})
 }
